@@ -332,6 +332,19 @@ func GoNamed(name string, f func()) {
 	if s == nil || s.aborted {
 		if freeMode {
 			goFree(f)
+		} else if recordFreePanics {
+			go func() {
+				defer func() {
+					if r := recover(); r != nil {
+						buf := make([]byte, 8192)
+						buf = buf[:runtime.Stack(buf, false)]
+						freePanicMu.Lock()
+						freePanics = append(freePanics, fmt.Sprintf("%v\n%s", r, trimStack(string(buf))))
+						freePanicMu.Unlock()
+					}
+				}()
+				f()
+			}()
 		} else {
 			go f()
 		}
@@ -745,4 +758,24 @@ func SelectPref(site string, possible []bool) (int, bool) {
 	before := len(s.trace.Decisions)
 	c := Choice(site, len(idx))
 	return idx[c], len(idx) == 2 && len(s.trace.Decisions) > before
+}
+
+// ---- panic recording for goroutines started by instrumented code outside a controlled execution ----
+
+var (
+	recordFreePanics bool
+	freePanicMu      sync.Mutex
+	freePanics       []string
+)
+
+// RecordFreePanics makes goroutines started through Go (outside a controlled execution) recover and record panics
+// instead of crashing the process; TakeFreePanics returns and clears what was recorded.
+func RecordFreePanics(on bool) { recordFreePanics = on }
+
+func TakeFreePanics() []string {
+	freePanicMu.Lock()
+	defer freePanicMu.Unlock()
+	p := freePanics
+	freePanics = nil
+	return p
 }
